@@ -130,6 +130,44 @@ static LIMIT_SCALE: AtomicU64 = AtomicU64::new(1);
 static CASE_BUF: Mutex<Vec<u8>> = Mutex::new(Vec::new());
 static WATCH_META: Mutex<String> = Mutex::new(String::new());
 
+thread_local! {
+    static LAST_OUTCOME: std::cell::Cell<u32> = std::cell::Cell::new(0);
+}
+/// Side channel from a checker to its workload loop: what the library answered in the judged call
+/// (bit 0/1 = first parser ok/err, bit 2/3 = second parser ok/err, 0 = nothing noted / panic). The loops use
+/// it for their statistics instead of calling the library again: between two judged calls no other library
+/// call may happen, because it would absorb state that the first left behind (and hide the defect).
+pub fn note_outcome(code: u32) {
+    LAST_OUTCOME.with(|c| c.set(code));
+}
+pub fn take_outcome() -> u32 {
+    LAST_OUTCOME.with(|c| c.replace(0))
+}
+thread_local! {
+    static LAST_TEXT: std::cell::RefCell<Option<String>> = std::cell::RefCell::new(None);
+}
+/// Same side channel for the serialised form of the value the judged call produced.
+pub fn note_text(t: String) {
+    LAST_TEXT.with(|c| *c.borrow_mut() = Some(t));
+}
+pub fn take_text() -> Option<String> {
+    LAST_TEXT.with(|c| c.borrow_mut().take())
+}
+pub fn outcome_code<T, E>(r: &Result<Result<T, E>, String>) -> u32 {
+    match r {
+        Ok(Ok(_)) => 1,
+        Ok(Err(_)) => 2,
+        Err(_) => 0,
+    }
+}
+pub fn outcome_str(code: u32) -> &'static str {
+    match code & 3 {
+        1 => "ok",
+        2 => "err",
+        _ => "panic",
+    }
+}
+
 /// Mark the start of a monitored case (arms the watchdog). `desc` is what will be reported
 /// as the witness if the case never finishes.
 #[inline]
@@ -423,6 +461,8 @@ impl Ctx {
         if fails.is_empty() {
             return true;
         }
+        let first_outcome = take_outcome();
+        let first_text = take_text();
         let mut seen: Vec<&str> = vec![];
         for f in &fails {
             if seen.contains(&f.clause.as_str()) {
@@ -451,6 +491,10 @@ impl Ctx {
                     .unwrap_or_else(|| f.detail.clone());
                 self.add_violation(clause, bytes_json(&min), bytes_json(input), detail);
             }
+        }
+        note_outcome(first_outcome);
+        if let Some(t) = first_text {
+            note_text(t);
         }
         false
     }
